@@ -125,6 +125,19 @@ func main() {
 			seekID(c, m, k, amt.Uint64()-1)
 		}
 	}
+	// seeking must not depend on where the iterator stood before (a reused iterator)
+	for i := 0; i < c.Scale(150, 1500); i++ {
+		m, k := randMK(c)
+		if m > 300 {
+			continue
+		}
+		amt := new(big.Int).Binomial(m+1, int64(k))
+		var id uint64
+		if i%3 != 0 && amt.Sign() > 0 {
+			id = uint64(c.Rng.Int63n(int64(amt.Uint64())))
+		}
+		seekUsed(c, m, randComb(c, m, k), c.Rng.Intn(4), id)
+	}
 	// k = 0: the only combination is the empty one, with ID 0
 	seekID(c, 5, 0, 0)
 	seekID(c, -1, 0, 0)
@@ -337,13 +350,43 @@ func seekID(c *gal.Ctx, m int64, k int, id uint64) {
 	c.OracleOK()
 }
 
+// position the iterator at s, step it a few times, then seek to id
+func seekUsed(c *gal.Ctx, m int64, s []int64, steps int, id uint64) {
+	var got []int64
+	p, _ := gal.Recover(func() {
+		it := iterAt(m, s)
+		for i := 0; i < steps; i++ {
+			it.Next()
+		}
+		it.SetCombinationID(id)
+		got = comb64(it.GetCombination())
+	})
+	o := obsList{panicked: p, val: got}
+	d := map[string]interface{}{"op": "seek_on_used_iterator", "m": m, "start": s, "steps": steps, "id": id}
+	idx := c.Add("seek_used", fmt.Sprintf("CSeek %s %s %s %s", gal.Z(m), gal.Nat(len(s)), gal.U(id), obsZ(o)), d, len(s) >= 1)
+	if p || !valid(m, got) || len(got) != len(s) || oracleRank(m, got).Cmp(new(big.Int).SetUint64(id)) != 0 {
+		c.OracleFail(idx, fmt.Sprintf("SetCombinationID(%d) on an iterator that stood at %v (+%d steps), m=%d, yields %v (panic=%v) which is not combination #%d", id, s, steps, m, got, p, id), "pkg/bruteforcer/indexes.go:setCombinationID", d)
+		return
+	}
+	c.OracleOK()
+}
+
 func flips(c *gal.Ctx) {
 	nbits := 1 + c.Rng.Intn(64)
+	if c.Rng.Intn(4) == 0 {
+		nbits = 65 + c.Rng.Intn(3937) // up to m = 4000: byte strings longer than 256 bytes
+	}
 	k := c.Rng.Intn(5)
 	if k > nbits {
 		k = nbits
 	}
 	s := randComb(c, int64(nbits-1), k)
+	if nbits > 64 && k > 0 && c.Rng.Intn(2) == 0 {
+		s[len(s)-1] = int64(nbits - 1 - c.Rng.Intn(8)) // address the very end of the string
+		for i := len(s) - 2; i >= 0 && s[i] >= s[i+1]; i-- {
+			s[i] = s[i+1] - 1
+		}
+	}
 	cmb := make(bruteforcer.UniqueUnorderedCombination, len(s))
 	for i, v := range s {
 		cmb[i] = bruteforcer.Value(v)
